@@ -403,6 +403,11 @@ func execBIG(op string, a []sx) sx {
 			n = size - (nrec-1)*(size/nrec)
 		}
 		b := make([]byte, n)
+		if nrec == size && nrec%10000 == 0 {
+			// identical one-byte records: the data snappy compresses at its very best ratio (64 bytes per 3-byte element)
+			b[0] = 0x55
+			return b
+		}
 		for j := range b {
 			b[j] = byte(j*31 + i*7)
 			if codec != "null" && j%97 != 0 {
@@ -457,6 +462,11 @@ func genBIG(c *ctx) {
 			for _, nrec := range []int{1, 7} {
 				c.emit(T("e2e-big", A(codec), I(int64(s)), I(int64(nrec))))
 			}
+		}
+		// one block holding 2^16 and more one-byte records (a record count that needs 17 bits; periodic data that snappy
+		// compresses at its best ratio, about 21 : 1)
+		for _, n := range []int{65535, 65536, 65537, 70001, 20000, 40000} {
+			c.emit(T("e2e-big", A(codec), I(int64(n)), I(int64(n))))
 		}
 	}
 }
